@@ -101,6 +101,7 @@ class Cls:
         self.consts = spec.get("consts", {})      # attribute name -> (coq text, type): configuration read-only fields
         self.heaps = set(spec.get("heaps", ()))   # list fields only touched through heapq (rendered as sorted lists)
         self.oracle_fns = set(spec.get("oracle_fns", ()))
+        self.noop_methods = set(spec.get("noop_methods", ()))
         self.dataclass_order = spec.get("dataclass_order", False)
         self.node = None
         for n in ast.walk(tree):
@@ -248,6 +249,8 @@ class MethodCtx:
         return any(isinstance(n, ast.Raise) for n in ast.walk(fn)) or self._calls_raising(fn) \
             or any(self._list_pop(n) is not None and id(n) not in inwhile for n in ast.walk(fn)) \
             or any(isinstance(n, ast.Delete) or self._next_iter(n, None) for n in ast.walk(fn)) \
+            or any(self._struct_field_call(n) is not None and self.tr.sigs[(self._struct_field_call(n)[1].name, self._struct_field_call(n)[2])][3]
+                   for n in ast.walk(fn)) \
             or any(self._is_dict_read(n, None) and id(n) not in guarded for n in ast.walk(fn)) \
             or any(isinstance(n, ast.AugAssign) and self._is_dict_read(self._as_load(n.target), None) for n in ast.walk(fn))
 
@@ -383,6 +386,8 @@ class MethodCtx:
                 return "self"
             if isinstance(mode, tuple) and mode[0] == "locloop":
                 return "(" + ", ".join(list(mode[1]) + ["false"]) + ")"
+            if isinstance(mode, tuple) and mode[0] == "gloop":
+                return self.gloop_exit(mode, "false")
             self.set_ret("unit", None)
             return self.result("tt")
         s, rest = stmts[0], stmts[1:]
@@ -393,7 +398,44 @@ class MethodCtx:
         if isinstance(s, ast.Break):
             if isinstance(mode, tuple) and mode[0] == "locloop":
                 return "(" + ", ".join(list(mode[1]) + ["true"]) + ")"
+            if isinstance(mode, tuple) and mode[0] == "gloop":
+                return self.gloop_exit(mode, "true")
             _u(s, "break outside a local-state for loop")
+        if isinstance(s, ast.Continue):
+            if isinstance(mode, tuple) and mode[0] == "gloop":
+                return self.gloop_exit(mode, "false")
+            _u(s, "continue outside a state loop")
+        # x = self.<struct field>.<method>(...): a pure method that may raise, or a state-changing one returning a value
+        if isinstance(s, ast.Assign) and len(s.targets) == 1 and isinstance(s.targets[0], ast.Name) \
+                and self._struct_field_call(s.value) is not None:
+            f, fc, meth = self._struct_field_call(s.value)
+            params, ret, pure, raises, oracles = self.tr.sigs[(fc.name, meth)]
+            if (pure and not raises) or oracles or s.value.keywords or len(s.value.args) != len(params):
+                pass            # the ordinary expression path handles pure total calls
+            else:
+                args = [self.coerce(*self.expr(a, env, pt), pt, s) for a, (_, pt) in zip(s.value.args, params)]
+                callee = f"({fc.name}_{meth} ({self.cls.fld(f)} self) {' '.join(args)})".replace(" )", ")")
+                v = s.targets[0].id
+                env2 = env.copy()
+                env2.locals[v] = ret
+                env2.narrow.pop(v, None)
+                env2.known_in = {x for x in env2.known_in if x[1] != v}
+                if raises and not self._uses_raise:
+                    _u(s, "raising call in a method not scanned as raising")
+                if pure:
+                    k = self.block(rest, env2, mode)
+                    self.raises = True
+                    return f"match {callee} with\n| None => None\n| Some {v} =>\n{textwrap.indent(k, '    ')}\nend"
+                if self.pure:
+                    _u(s, "pure method calls a state-changing method of a field")
+                env2.mutated = True
+                env2.narrow = {p: w for p, w in env2.narrow.items() if not p.startswith("self.")}
+                tmp = self.tr.gensym("fld")
+                k = f"let self := set_{self.cls.fld(f)} self {tmp} in\n" + self.block(rest, env2, mode)
+                if raises:
+                    self.raises = True
+                    return f"match {callee} with\n| None => None\n| Some ({tmp}, {v}) =>\n{textwrap.indent(k, '    ')}\nend"
+                return f"let '({tmp}, {v}) := {callee} in\n{k}"
         if isinstance(s, ast.AugAssign):
             load = self._as_load(s.target)
             s = ast.copy_location(ast.Assign(targets=[s.target], value=ast.BinOp(left=load, op=s.op, right=s.value), lineno=s.lineno), s)
@@ -522,6 +564,81 @@ class MethodCtx:
         if isinstance(s, ast.While):
             return self.while_stmt(s, rest, env, mode)
         _u(s, "unsupported statement")
+
+    def _struct_field_call(self, e):
+        """self.<field of struct type>.<translated method>(...) -> (field, class, method name)"""
+        if isinstance(e, ast.Call) and isinstance(e.func, ast.Attribute) and isinstance(e.func.value, ast.Attribute) \
+                and isinstance(e.func.value.value, ast.Name) and e.func.value.value.id == "self":
+            f = e.func.value.attr
+            ft = self.cls.fields.get(f)
+            fc = self.tr.classes.get(ft) if isinstance(ft, str) else None
+            if fc is not None and (fc.name, e.func.attr) in self.tr.sigs:
+                return f, fc, e.func.attr
+        return None
+
+    # -- general state loops: for x in range(...) / <dict>.values(), body may assign carried locals, change self,
+    #    break, continue, contain further such loops; in a method that can raise the loop state is optional --------
+    def gloop_exit(self, mode, brk):
+        _, carried, with_self = mode
+        parts = (["self"] if with_self else []) + list(carried) + [brk]
+        t = "(" + ", ".join(parts) + ")"
+        return f"Some {t}" if self._uses_raise else t
+
+    def gloop_iter(self, it, env):
+        if isinstance(it, ast.Call) and isinstance(it.func, ast.Name) and it.func.id == "range" and not it.keywords:
+            a = [self.expr(x, env) for x in it.args]
+            if any(t not in ZLIKE for _, t in a):
+                _u(it, "range bounds must be integers")
+            if len(a) == 1:
+                return f"(py_range 0 {a[0][0]})"
+            if len(a) == 2:
+                return f"(py_range {a[0][0]} {a[1][0]})"
+            if len(a) == 3 and isinstance(it.args[2], ast.UnaryOp) and isinstance(it.args[2].op, ast.USub) \
+                    and isinstance(it.args[2].operand, ast.Constant) and it.args[2].operand.value == 1:
+                return f"(py_range_desc {a[0][0]} {a[1][0]})"
+            _u(it, "range step")
+        if isinstance(it, ast.Call) and isinstance(it.func, ast.Attribute) and it.func.attr == "values" and not it.args:
+            d, dt = self.expr(it.func.value, env)
+            if dt == "dict":
+                return f"(map snd {d})"
+        return None
+
+    def general_for(self, s, lst, rest, env, mode):
+        if s.orelse or not isinstance(s.target, ast.Name):
+            _u(s, "for/else or a non-name loop target")
+        for n in ast.walk(s):
+            if isinstance(n, (ast.Return, ast.Raise, ast.While)):
+                _u(n, "return/raise/while inside a state loop")
+        assigned = []
+        for n in ast.walk(s):
+            if isinstance(n, (ast.Assign, ast.AugAssign, ast.AnnAssign)):
+                for t in (n.targets if isinstance(n, ast.Assign) else [n.target]):
+                    if isinstance(t, ast.Name) and t.id in env.locals and t.id not in assigned and t.id != s.target.id:
+                        assigned.append(t.id)
+        with_self = not self.pure
+        x = s.target.id
+        benv = env.copy()
+        benv.locals[x] = "Z"
+        benv.narrow = {p: w for p, w in benv.narrow.items() if not p.startswith("self.") and p.split(".")[0] not in assigned}
+        body = self.block(list(s.body), benv, ("gloop", tuple(assigned), with_self))
+        parts = (["self"] if with_self else []) + assigned + ["brk_"]
+        pat = "'(" + ", ".join(parts) + ")"
+        init = "(" + ", ".join((["self"] if with_self else []) + assigned + ["false"]) + ")"
+        sty = " * ".join(([self.cls.name] if with_self else []) + [coq_ty(env.locals[v]) for v in assigned] + ["bool"])
+        env2 = env.copy()
+        if with_self:
+            env2.mutated = True
+            env2.narrow = {p: w for p, w in env2.narrow.items() if not p.startswith("self.")}
+        for v in assigned:
+            env2.narrow.pop(v, None)
+        k = self.block(rest, env2, mode)
+        if self._uses_raise:
+            self.raises = True
+            return (f"match fold_left (fun (st_ : option ({sty})) ({x} : Z) => match st_ with None => None | Some {pat[1:]} => "
+                    f"if brk_ then st_ else\n{textwrap.indent(body, '    ')} end) {lst} (Some {init}) with\n"
+                    f"| None => None\n| Some {pat[1:]} =>\n{textwrap.indent(k, '    ')}\nend")
+        return (f"let {pat} := fold_left (fun (st_ : {sty}) ({x} : Z) => let {pat} := st_ in if brk_ then st_ else\n"
+                f"{textwrap.indent(body, '    ')}) {lst} {init} in\n{k}")
 
     def _next_iter(self, e, env):
         """next(iter(<dict>)) -> coq text of the dict, else None"""
@@ -774,6 +891,12 @@ class MethodCtx:
             env.mutated = True
             return (f"let self := set_{self.cls.fld(f)} self (py_heappush {ec.name}___lt__ ({self.cls.fld(f)} self) {x}) in\n"
                     + self.block(rest, env, mode))
+        if isinstance(e, ast.Call) and isinstance(e.func, ast.Attribute) and isinstance(e.func.value, ast.Name) \
+                and e.func.value.id == "self" and e.func.attr in self.cls.noop_methods:
+            # a method declared not to touch any translated field (its arguments must still be translatable reads)
+            for a in e.args:
+                self.expr(a, env)
+            return self.block(rest, env, mode)
         if isinstance(e, ast.Call) and isinstance(e.func, ast.Attribute):
             recv = e.func.value
             # self.method(...)
@@ -888,6 +1011,9 @@ class MethodCtx:
         it = s.iter
         if isinstance(it, ast.Name) and env.locals.get(it.id) == ("list", "Z") and isinstance(s.target, ast.Name):
             return self.local_for(s, rest, env, mode)
+        lst = self.gloop_iter(it, env)
+        if lst is not None:
+            return self.general_for(s, lst, rest, env, mode)
         for n in ast.walk(s):
             if isinstance(n, (ast.Break, ast.Continue, ast.Return, ast.Raise)):
                 _u(n, "break/continue/return/raise inside a for loop")
@@ -1113,6 +1239,12 @@ class MethodCtx:
         if isinstance(e.value, ast.Name) and e.value.id == "self" and e.attr in self.cls.consts:
             txt, t = self.cls.consts[e.attr]
             return txt, parse_ty(t)
+        if isinstance(e.value, ast.Name) and e.value.id in env.narrow:
+            # a field of an optional local known to be non-None on this path
+            v, t = env.narrow[e.value.id]
+            c = self.tr.classes.get(t)
+            if c is not None and e.attr in c.fields:
+                return f"({c.fld(e.attr)} {v})", c.fields[e.attr]
         if isinstance(e.value, ast.Name) and e.value.id == "self" and e.attr not in self.cls.fields \
                 and (self.cls.name, e.attr) in self.tr.sigs and e.attr in self.cls.defs \
                 and "property" in [ast.unparse(d) for d in self.cls.defs[e.attr].decorator_list]:
